@@ -57,6 +57,8 @@ def cases(rng, quick):
             for _ in range(2):
                 k = rng.choice([2, 3])
                 seqs.append([rng.choice(bad) for _ in range(k)])
+        if ty in ("Int", "Float", "Half", "Odd", "Tiny"):       # swapped with a same-typed object of another storage class first
+            seqs += [[rng.choice(["swapstack", "swapheap"])] + q for q in seqs[:3]] + [["swapstack", "swapheap"] + seqs[0]]
         return seqs
     for how in HOWS_ANY:
         for ty in TYPES + ["Half"]:            # Half: a type that brings its own allocator (like the library's Type)
